@@ -368,25 +368,58 @@ func genEventOrder(p *pkgFiles, out *strings.Builder) {
 			continue
 		}
 		r := row{name: t[1] + "." + t[2]}
-		ast.Inspect(fd.Body, func(n ast.Node) bool {
-			c, ok := n.(*ast.CallExpr)
-			if !ok {
-				return true
+		// an unexported helper of World/storage that the operation calls (e.g. an extracted observer loop)
+		// is looked into at the point of the call, two levels deep
+		helper := func(name string) *ast.FuncDecl {
+			if name == "" || (name[0] >= 'A' && name[0] <= 'Z') {
+				return nil
 			}
-			s := src(c)
-			for _, it := range interesting {
-				if strings.Contains(s, it.sub) && strings.HasPrefix(s[strings.Index(s, it.sub)-min(strings.Index(s, it.sub), 60):], "") {
-					// only count the call whose function expression itself contains the marker
-					if strings.Contains(src(c.Fun)+"(", strings.TrimSuffix(it.sub, "(")) || strings.Contains(s[:min(len(s), len(src(c.Fun))+40)], it.sub) {
-						if len(r.seq) == 0 || r.seq[len(r.seq)-1] != it.tag {
-							r.seq = append(r.seq, it.tag)
+			for _, f := range p.files {
+				for _, d := range f.Decls {
+					if hd, ok := d.(*ast.FuncDecl); ok && hd.Body != nil && hd.Name.Name == name && hd.Recv != nil && len(hd.Recv.List) == 1 {
+						if rn := recvName(hd.Recv.List[0].Type); rn == "World" || rn == "storage" {
+							return hd
 						}
-						break
 					}
 				}
 			}
-			return true
-		})
+			return nil
+		}
+		var visit func(body ast.Node, depth int)
+		visit = func(body ast.Node, depth int) {
+			ast.Inspect(body, func(n ast.Node) bool {
+				c, ok := n.(*ast.CallExpr)
+				if !ok {
+					return true
+				}
+				s := src(c)
+				tagged := false
+				for _, it := range interesting {
+					if strings.Contains(s, it.sub) {
+						tagged = true
+					}
+				}
+				if se, ok := c.Fun.(*ast.SelectorExpr); ok && !tagged && depth < 2 {
+					if hd := helper(se.Sel.Name); hd != nil && hd != fd {
+						visit(hd.Body, depth+1)
+						return true
+					}
+				}
+				for _, it := range interesting {
+					if strings.Contains(s, it.sub) && strings.HasPrefix(s[strings.Index(s, it.sub)-min(strings.Index(s, it.sub), 60):], "") {
+						// only count the call whose function expression itself contains the marker
+						if strings.Contains(src(c.Fun)+"(", strings.TrimSuffix(it.sub, "(")) || strings.Contains(s[:min(len(s), len(src(c.Fun))+40)], it.sub) {
+							if len(r.seq) == 0 || r.seq[len(r.seq)-1] != it.tag {
+								r.seq = append(r.seq, it.tag)
+							}
+							break
+						}
+					}
+				}
+				return true
+			})
+		}
+		visit(fd.Body, 0)
 		rows = append(rows, r)
 	}
 	out.WriteString("/-- order of lock / removal events / first mutation / addition events / unlock in the operations\n    that emit events (consecutive duplicates collapsed) -/\ndef eventOrder : List (String × List String) := [\n")
